@@ -5,7 +5,7 @@ With --src, confirmed seeds found there are first copied into /verif/seeded."""
 import json, os, re, shutil, subprocess, sys
 V = "/verif"
 EXTRA = {  # checks, besides the seed's own property, that are worth running against it
- "C01": ["C04", "C06"], "C02": ["C06", "C09"], "C03": ["C06"], "C06": ["C04", "C05", "C08"], "C07": ["C14", "C04"], "C09": ["C06"],
+ "C01": ["C04", "C06"], "C02": ["C06", "C09"], "C03": ["C06"], "C04": ["C12", "C07"], "C06": ["C04", "C05", "C08"], "C07": ["C14", "C04"], "C09": ["C06"], "C16": ["C14"], "C19": ["C10"],
 }
 def sh(cmd, **kw):
     return subprocess.run(cmd, shell=True, capture_output=True, text=True, **kw)
@@ -21,8 +21,11 @@ def first_line(path):
 def main():
     args = sys.argv[1:]
     src = None
+    prefix = ""
     if args and args[0] == "--src":
         src = args[1]; args = args[2:]
+    if args and args[0] == "--prefix":
+        prefix = args[1]; args = args[2:]
     if src:
         for prop in sorted(os.listdir(src)):
             d = os.path.join(src, prop)
@@ -35,7 +38,7 @@ def main():
                     continue
                 conf = [l.strip() for l in open(log) if re.match(r"(CLEAN-DEMO|APPLY|BUILD|MUT-DEMO|EXISTING):", l)]
                 ok = conf == ["CLEAN-DEMO: pass", "APPLY: ok", "BUILD: ok", "MUT-DEMO: FAIL", "EXISTING: ok"]
-                dst = os.path.join(V, "seeded", prop + "-" + m)
+                dst = os.path.join(V, "seeded", prop + "-" + prefix + m)
                 if not ok:
                     print("not confirmed, skipped:", prop, m, conf)
                     continue
@@ -73,13 +76,19 @@ def run(ids, WT, ENG):
             meta["confirmed_by"] = "tools/confirm_seed.sh in a scratch worktree of /repo HEAD (unshare -n): patch applies and builds; existing tests of the touched packages pass apart from the baseline's always-failing ones; demo passes on the clean tree and fails with the patch"
         props = [p for p in [prop] + EXTRA.get(prop, []) if built(p)]
         patch = os.path.join(d, "patch.diff")
-        if sh("git -C %s apply --check %s" % (WT, patch)).returncode != 0:
+        applied_with = "git apply"
+        if sh("git -C %s apply --check %s" % (WT, patch)).returncode != 0 and sh("cd %s && patch -p1 --dry-run -s < %s" % (WT, patch)).returncode == 0:
+            applied_with = "patch"
+        if applied_with == "git apply" and sh("git -C %s apply --check %s" % (WT, patch)).returncode != 0:
             meta["detected"] = None
             meta["note"] = "patch no longer applies to /repo HEAD (a later fix: commit touched the same lines)"
             json.dump(meta, open(metap, "w"), indent=1)
             print(sid, "PATCH-DOES-NOT-APPLY")
             continue
-        sh("git -C %s apply %s" % (WT, patch))
+        if applied_with == "patch":
+            sh("cd %s && patch -p1 -s --no-backup-if-mismatch < %s" % (WT, patch))
+        else:
+            sh("git -C %s apply %s" % (WT, patch))
         hits = []
         errors = []
         try:
